@@ -5,31 +5,34 @@ CLAIM = ('Proved in Coq for the model, END TO END for Numbers naming with KeepLo
          'KeepLogAndCompressedFiles and cleanup in the logging thread, every history of one run from an empty directory: in the '
          'end exactly rCURRENT, the newest n closed files (plain, as they were closed) and the next m (complete archives of '
          'exactly what the file held) exist, everything older is gone, and what survives is a suffix of what was written '
-         '(C07_numbers_cleanup, C07_numbers_cleanup_vs_never; side conditions, both shown necessary by counterexamples in Coq: '
-         'suffix not ending in .gz, at most 100000 rotations). The building blocks hold for every naming: (1) the listing the '
-         "cleanup works on is a sorted permutation of the family's files under a total order (C07_listing_sorted) in which - for "
-         'every suffix and every number of digits of the restart counter - a file written later under the same time stamp comes '
-         'before the earlier ones, compressed or not (C07_listing_restart_order, C07_listing_plain_last; hypothesis: the suffix '
-         'does not end in .gz); (2) without faults the cleanup keeps the first log_limit entries of that listing unchanged, '
-         'turns the next compress_limit into archives with exactly the content of the files they replace, removes everything '
-         'beyond, removes redundant archives first and touches nothing else (C07_cleanup_keeps_newest, C07_compress_lossless). '
-         'Not proved: that every history of the writer hands the cleanup a listing whose order is the order of writing for all '
-         'namings (that is (1) for restart siblings, numbers by C01) - so the end-to-end statement is decided per explored '
-         'history by executable oracles defined in Coq (Oracles/O_Stream.v) on directory snapshots of the implementation after '
-         'every flush and stop: the family files in reader order (archives decompressed) form a tail of the logged stream, the '
-         'numbers of plain files and archives respect the limits, every archive is complete and is a segment of the logged '
-         'stream, the file being written is plain (C07_tail_sound, C07_limits_sound: soundness of these oracles). The model '
-         '(synchronous and queued background cleanup, compression step by step) is tied to the code by the correspondence check: '
-         "partial. With cleanup in the background thread the same end-to-end statement holds under the model's and harness's "
-         'scheduling, in which each request is finished before the next operation (C07_numbers_cleanup_bg). Also proved END TO '
-         'END for NumbersDirect naming (cleanup in the logging thread): the file being written, r<L>, is entry 0 of the listing '
-         'and counts for the first limit, which the code raises from 0 to 1 - this alone protects it -; in the end exactly the '
-         'current file, the newest max(1,n)-1 closed files (plain) and the next m (complete archives of exactly what the file '
-         'held) exist, the current file is never compressed or removed, and what survives is a suffix of what was written '
-         '(C07_numbersdirect_cleanup, C07_numbersdirect_cleanup_vs_never, C07_numbersdirect_cleanup_no_panic; side conditions '
-         'shown necessary: suffix not ending in .gz, index of the current file below 100000 - at index 100000 the listing, which '
-         'orders number infixes as text, takes r99999 for the file being written: see DESIGN.md section 9). ')
-THEOREMS = ["C07_numbers_cleanup", "C07_numbers_cleanup_vs_never", "C07_listing_sorted", "C07_listing_restart_order", "C07_listing_plain_last", "C07_compress_lossless", "C07_cleanup_keeps_newest", "C07_tail_sound", "C07_limits_sound", "C07_numbers_cleanup_bg", "C07_numbersdirect_cleanup", "C07_numbersdirect_cleanup_vs_never", "C07_numbersdirect_cleanup_no_panic"]
+         '(C07_numbers_cleanup, C07_numbers_cleanup_vs_never; side condition, shown necessary by a counterexample in Coq: the '
+         'suffix does not end in .gz; no bound on the number of rotations). The building blocks hold for every naming: (1) the '
+         "listing the cleanup works on is a sorted permutation of the family's files under a total order (C07_listing_sorted) in "
+         'which - for every suffix and every number of digits of the restart counter - a file written later under the same time '
+         'stamp comes before the earlier ones, compressed or not (C07_listing_restart_order, C07_listing_plain_last; hypothesis: '
+         'the suffix does not end in .gz); (2) without faults the cleanup keeps the first log_limit entries of that listing '
+         'unchanged, turns the next compress_limit into archives with exactly the content of the files they replace, removes '
+         'everything beyond, removes redundant archives first and touches nothing else (C07_cleanup_keeps_newest, '
+         'C07_compress_lossless). Not proved: that every history of the writer hands the cleanup a listing whose order is the '
+         'order of writing for all namings (that is (1) for restart siblings, numbers by C01) - so the end-to-end statement is '
+         'decided per explored history by executable oracles defined in Coq (Oracles/O_Stream.v) on directory snapshots of the '
+         'implementation after every flush and stop: the family files in reader order (archives decompressed) form a tail of the '
+         'logged stream, the numbers of plain files and archives respect the limits, every archive is complete and is a segment '
+         'of the logged stream, the file being written is plain (C07_tail_sound, C07_limits_sound: soundness of these oracles). '
+         'The model (synchronous and queued background cleanup, compression step by step) is tied to the code by the '
+         'correspondence check: partial. With cleanup in the background thread the same end-to-end statement holds under the '
+         "model's and harness's scheduling, in which each request is finished before the next operation "
+         '(C07_numbers_cleanup_bg). Also proved END TO END for NumbersDirect naming (cleanup in the logging thread): the file '
+         'being written, r<L>, is entry 0 of the listing and counts for the first limit, which the code raises from 0 to 1 - '
+         'this alone protects it -; in the end exactly the current file, the newest max(1,n)-1 closed files (plain) and the next '
+         'm (complete archives of exactly what the file held) exist, the current file is never compressed or removed, and what '
+         'survives is a suffix of what was written (C07_numbersdirect_cleanup, C07_numbersdirect_cleanup_vs_never, '
+         'C07_numbersdirect_cleanup_no_panic; side condition shown necessary: suffix not ending in .gz). These proofs found a '
+         'defect: the listing ordered number infixes as text, so from index 100000 on the cleanup took r99999 for the newest '
+         'file and, with NumbersDirect naming, removed the file being written; confirmed on the code with a pre-seeded '
+         "directory, repaired (d907c46: numeric order, C07_listing_number_order), the bound 'index below 100000' that the "
+         'theorems needed is gone, and the failing directories are corpus cases. ')
+THEOREMS = ["C07_numbers_cleanup", "C07_numbers_cleanup_vs_never", "C07_listing_sorted", "C07_listing_restart_order", "C07_listing_plain_last", "C07_compress_lossless", "C07_cleanup_keeps_newest", "C07_tail_sound", "C07_limits_sound", "C07_numbers_cleanup_bg", "C07_numbersdirect_cleanup", "C07_numbersdirect_cleanup_vs_never", "C07_numbersdirect_cleanup_no_panic", "C07_listing_number_order"]
 TRUSTED = ["modelled, not verified: flate2 (validated by decompressing every archive), read_dir, the keyed sort of the listing (modelled as insertion sort by the same key), "
            "the background cleanup thread is modelled as a queue drained at shutdown (interleavings with rotations: not explored here)"]
 ASSUMPTIONS = ["no I/O faults, no kill, no foreign files; the same cleanup strategy in all runs of a history"]
@@ -48,6 +51,15 @@ def corpus():
         for cl in ("l1", "g1", "b1.1", "l0"):
             c = g.Cfg(crit="s3", naming=naming, cleanup=cl)
             out.append("flw %d 0 ; B:%s %s F SN S SN" % (g.T0, c.token(), " ".join("W:" + g.hx(b"%c%d__\n" % (65 + i, i)) + (" K:1" if i % 2 else "") for i in range(6))))
+    # fixed defect: number infixes above 99999 were sorted as text - the cleanup took r99999 for the newest file and, with
+    # NumbersDirect naming, removed the file being written (with and without a fixed name part)
+    for naming in ("numd", "num"):
+        for base in (b"a", b""):
+            for cl in ("l1", "g1", "b1.1"):
+                c = g.Cfg(base=base, crit="s5", naming=naming, cleanup=cl)
+                pre = ["XC:%s:0:%s" % (g.hx(c.name(b"r%05d" % i)), g.hx(b"old%d\n" % i)) for i in (99998, 99999)]
+                out.append("flw %d 0 ; %s SN B:%s W:%s W:%s F SN W:%s F SN W:%s S SN" % (
+                    g.T0, " ".join(pre), c.token(), g.hx(b"A0aaaa\n"), g.hx(b"B1\n"), g.hx(b"C2cccc\n"), g.hx(b"D3\n")))
     return out
 
 
